@@ -47,7 +47,8 @@ CLAIMS = {
              "memory, dynamic_obstacles (well-formed: requested shape, unbroken wall boundary, agent inside on a free cell that is "
              "not exit/obstacle/telepod, empty-handed; inventories as advertised; ValueError and only ValueError for parameters "
              "that cannot be honoured), with the design.py drawing helpers verified against cell-exact contracts (loop "
-             "invariants). rooms is proved for the fixed layouts (1,1), (2,2), (1,3) with symbolic shape and every outcome (numpy.linspace "
+             "invariants). rooms is proved for the fixed layouts (1,1), (2,2), (1,3), memory_rooms for (1,1) with 1 beacon / 2 exits and (2,2) "
+             "with 2 beacons / 3 exits, each with symbolic shape, symbolic colour set and every outcome (numpy.linspace "
              "modelled exactly for at most 6 samples and compared with numpy by the setup command). Obstacle counts are evaluated "
              "natively only. rooms with other layouts, memory_rooms and crossing are evaluated natively only on random parameters: "
              "bounded stand-ins, not proof.",
@@ -144,7 +145,10 @@ CLAIMS['C15'] = dict(
          "membership predicates, ObservationSpace view area and anchor, outer_space_to_gym_space (same bounds, dtype by "
          "space type), and - for grids of any shape - the array level of convert(): normalised agent pose inside [-1, 1] with "
          "a one-hot heading, agent marker, item = encoder(held object), grid entry (y, x) = encoder(object in that cell) for "
-         "an arbitrary per-object encoder. Not proved: the tiled bounds arrays of the spaces (numpy tiling / dtypes).",
+         "an arbitrary per-object encoder; the default and no-overlap per-object encoders stay inside the bounds handed to "
+         "Space.make_categorical_space for every subset of classes / colours and every member object; Dict*Representation "
+         "composes its parts by key (only the debug membership check raises); the factories assemble the named encoder for grid "
+         "and item alike. Not proved: the compact encoder's index maps and the Space objects / tiled bounds arrays (numpy dtypes).",
     design='5/C15',
     technique='exhaustive finite enumeration of the per-object encoders on the real functions + contracts on the space predicates',
     note='per-object layer: exhaustive native enumeration (closed world of the registered classes); array level proved for an uninterpreted encoder; space bounds arrays sampled')
@@ -155,7 +159,8 @@ CLAIMS['C16'] = dict(
          "consecutive from zero; state/observation-level faithfulness sampled with single-change variants on 3x4 / 3x5 grids. "
          "Proved for grids of any shape: entry (y, x) is the same encoder applied to the object in that cell, the agent marker "
          "is 1 exactly at the agent's cell, item = encoder(held object), pose entries determine position and heading; "
-         "GridObject equality is an equivalence on (type, status, colour) and equal objects hash alike. Known finding (D8): observation representations do not encode the agent's orientation.",
+         "the default encoding is the index triple and the no-overlap channels lie in pairwise disjoint ranges fixed by the space, for "
+         "every subset of classes / colours; GridObject / Agent / Grid / State equality is structural and equal values hash alike. Known finding (D8): observation representations do not encode the agent's orientation.",
     design='5/C16',
     technique='exhaustive finite enumeration of the per-object encoders on the real functions + eq/hash lemma',
     note='bounded at the array level; one known finding listed in known_findings.txt')
